@@ -1,2 +1,255 @@
-(* placeholder while the harness is being brought up *)
-From SV Require Import Alg.Helpers.
+(* C20 — Numerical and container helpers of stockpyl/helpers.py do exactly what they document.
+   Statements only; every proof is [exact <lemma of Alg/Helpers_*_proofs.v>].
+   Model: Alg/Helpers.v (exact rationals; Python values = [pv], dict = insertion-ordered association list with
+   pairwise different keys, exceptions = [Err kind]).  Every theorem is for all inputs of the stated shape.
+   Not theorems (correspondence + Python oracle only, see c20.claim.json): build_node_data_dict,
+   replace_dict_numeric_string_keys, replace_dict_null_keys, nearest_dict_value, the identity
+   "Irwin-Hall closed form = cdf of the sum of uniforms" (kept as an oracle identity; tests below). *)
+From Coq Require Import String Permutation Sorted.
+From SV Require Import Base.Qx Alg.Helpers Alg.Helpers_proofs.
+Import ListNotations.
+
+(* ------------------------------------------------------------------------------------------------ *)
+(* (1) convolution of pmfs = direct convolution *)
+Theorem C20_conv_coefficient a b k : nth k (conv a b) 0 == qsum_range (fun i => nth i a 0 * nth (k - i) b 0) 0 (S k).
+Proof. exact (conv_nth a b k). Qed.
+Theorem C20_conv_length a b : a <> [] -> b <> [] -> length (conv a b) = (length a + length b - 1)%nat.
+Proof. exact (conv_length a b). Qed.
+Theorem C20_conv_nonneg a b : Forall (fun x => 0 <= x) a -> Forall (fun x => 0 <= x) b -> Forall (fun x => 0 <= x) (conv a b).
+Proof. exact (conv_nonneg a b). Qed.
+Theorem C20_conv_mass a b : qsum (conv a b) == qsum a * qsum b.
+Proof. exact (conv_mass a b). Qed.
+Theorem C20_conv_comm a b : forall k, nth k (conv a b) 0 == nth k (conv b a) 0.
+Proof. exact (conv_comm a b). Qed.
+Theorem C20_conv_assoc a b c : forall k, nth k (conv (conv a b) c) 0 == nth k (conv a (conv b c)) 0.
+Proof. exact (conv_assoc a b c). Qed.
+(* convolve_many = left fold of conv from [1]: length 1 + sum(len - 1), mass = product of masses, non-negative;
+   on non-negative non-empty arrays the negative-rounding clean-up changes nothing *)
+Theorem C20_convolve_many_fold ls : Forall (fun a => a <> []) ls ->
+  length (conv_all ls) = (1 + sum_len1 ls)%nat /\ qsum (conv_all ls) == qprod (map qsum ls) /\
+  (Forall (Forall (fun x => 0 <= x)) ls -> Forall (fun x => 0 <= x) (conv_all ls)).
+Proof. exact (conv_all_props ls). Qed.
+Theorem C20_convolve_many_pmfs ls : Forall (fun a => a <> []) ls -> Forall (Forall (fun x => 0 <= x)) ls ->
+  convolve_many ls = Some (Ok (conv_all ls)).
+Proof. exact (convolve_many_nonneg ls). Qed.
+
+(* (2) sum_of_discrete_uniforms_pmf: the dict iteration returns the n-fold convolution power of the uniform pmf on lo..hi
+   ([uniform_sum_pmf]: delta_0 convolved n times with U), keys pairwise different = exactly n*lo..n*hi, values >= 0, mass 1 *)
+Theorem C20_du_sum_pmf n lo hi : (lo <= hi)%Z ->
+  let r := du_sum_pmf n lo hi in
+  (forall k, zd_get r k == uniform_sum_pmf n lo hi k) /\
+  NoDup (map fst r) /\
+  (forall k, In k (map fst r) <-> (Z.of_nat n * lo <= k <= Z.of_nat n * hi)%Z) /\
+  Forall (fun x => 0 <= x) (map snd r) /\ qsum (map snd r) == 1.
+Proof. exact (du_sum_pmf_spec n lo hi). Qed.
+
+(* ------------------------------------------------------------------------------------------------ *)
+(* (3) find_nearest: an index of a closest entry; sorted mode: value ties go to the larger entry; unsorted: first closest *)
+Theorem C20_find_nearest_sorted a v : a <> [] -> sorted_q a ->
+  let i := fn_sorted a v in
+  (i < length a)%nat /\
+  (forall j, (j < length a)%nat -> qabs (nth i a 0 - v) <= qabs (nth j a 0 - v)) /\
+  (forall j, (j < length a)%nat -> qabs (nth j a 0 - v) == qabs (nth i a 0 - v) -> nth j a 0 <= nth i a 0).
+Proof. exact (fn_sorted_spec a v). Qed.
+Theorem C20_find_nearest_sorted_exact_hit a v : sorted_q a -> (exists j, (j < length a)%nat /\ nth j a 0 == v) ->
+  let i := fn_sorted a v in (i < length a)%nat /\ nth i a 0 == v /\ forall j, (j < i)%nat -> nth j a 0 < v.
+Proof. exact (fn_sorted_exact_hit a v). Qed.
+Theorem C20_find_nearest_unsorted a v : a <> [] -> exists i, fn_unsorted a v = Ok i /\ (i < length a)%nat /\
+  (forall j, (j < length a)%nat -> qabs (nth i a 0 - v) <= qabs (nth j a 0 - v)) /\
+  (forall j, (j < i)%nat -> qabs (nth i a 0 - v) < qabs (nth j a 0 - v)).
+Proof. exact (fn_unsorted_spec a v). Qed.
+Theorem C20_find_nearest a values sorted : a <> [] -> (sorted = true -> sorted_q a) ->
+  exists r, find_nearest a values sorted [] = Ok r /\ length r = length values /\
+  forall t, (t < length values)%nat ->
+    let i := nth t r 0%Z in let v := nth t values 0 in
+    (0 <= i < Z.of_nat (length a))%Z /\ forall j, (j < length a)%nat -> qabs (nth (Z.to_nat i) a 0 - v) <= qabs (nth j a 0 - v).
+Proof. exact (find_nearest_spec a values sorted). Qed.
+
+(* ------------------------------------------------------------------------------------------------ *)
+(* (4) dict_match: symmetric; tolerance = math.isclose; missing key = 0 unless require_presence *)
+Theorem C20_isclose_tolerance rel abs a b : 0 <= rel ->
+  (isclose rel abs a b = true <-> qabs (a - b) <= qmax (rel * qmax (qabs a) (qabs b)) abs).
+Proof. exact (isclose_spec rel abs a b). Qed.
+(* for every key type whose == is an equivalence, and dicts (pairwise different keys) *)
+Theorem C20_dict_match_sym (K : Type) (keqb : K -> K -> bool) :
+  (forall a, keqb a a = true) -> (forall a b, keqb a b = keqb b a) -> (forall a b c, keqb a b = true -> keqb b c = true -> keqb a c = true) ->
+  forall d1 d2 rp rel abs, nodupk keqb d1 -> nodupk keqb d2 ->
+  dict_match keqb d1 d2 rp rel abs = dict_match keqb d2 d1 rp rel abs.
+Proof. exact (@dict_match_sym K keqb). Qed.
+Theorem C20_dict_match_semantics (K : Type) (keqb : K -> K -> bool) :
+  (forall a, keqb a a = true) -> (forall a b, keqb a b = keqb b a) -> (forall a b c, keqb a b = true -> keqb b c = true -> keqb a c = true) ->
+  forall d1 d2 rp rel abs, 0 <= rel -> 0 <= abs -> nodupk keqb d1 -> nodupk keqb d2 ->
+  exists b, dict_match keqb d1 d2 rp rel abs = Ok b /\
+    (b = true <-> (forall k, isclose rel abs (kval keqb d1 k) (kval keqb d2 k) = true) /\
+                  (rp = true -> forall k, kmem keqb d1 k = kmem keqb d2 k)).
+Proof. exact (@dict_match_semantics K keqb). Qed.
+Theorem C20_dict_match_negative_tol (K : Type) (keqb : K -> K -> bool) d1 d2 rp rel abs :
+  (rel < 0 \/ abs < 0) -> (d1 <> [] \/ d2 <> []) -> dict_match keqb d1 d2 rp rel abs = Err ValueError.
+Proof. exact (dict_match_negative_tol keqb d1 d2 rp rel abs). Qed.
+(* Python's keys None | int | float | str (1 == 1.0) satisfy the premises *)
+Theorem C20_dict_match_sym_python_keys d1 d2 rp rel abs : nodupk key_eqb d1 -> nodupk key_eqb d2 ->
+  dict_match key_eqb d1 d2 rp rel abs = dict_match key_eqb d2 d1 rp rel abs.
+Proof. exact (pdict_match_sym d1 d2 rp rel abs). Qed.
+Theorem C20_min_of_dict (K : Type) (d : list (K * Q)) : d <> [] ->
+  exists v k, min_of_dict d = Ok (v, k) /\ In (k, v) d /\ forall kv, In kv d -> v <= snd kv.
+Proof. exact (min_of_dict_spec d). Qed.
+
+(* ------------------------------------------------------------------------------------------------ *)
+(* (5) normalisers: the documented result for every input shape, ValueError for inadmissible lengths *)
+Theorem C20_ensure_list_for_time_periods T :
+  (forall x, ensure_list_tp (TPScalar x) T = Some (0 :: repeat x T)) /\
+  (forall l, length l = S T -> ensure_list_tp (TPList l) T = Some l) /\
+  (forall l, length l = T -> ensure_list_tp (TPList l) T = Some (0 :: l)) /\
+  (forall l, length l <> T -> length l <> S T -> ensure_list_tp (TPList l) T = None).
+Proof. exact (ensure_list_tp_doc T). Qed.
+Theorem C20_ensure_list_for_nodes n dflt :
+  ensure_list_for_nodes PNone n dflt = Ok (zrepeat dflt n) /\
+  (forall x, is_singleton x -> ensure_list_for_nodes x n dflt = Ok (zrepeat x n)) /\
+  (forall l, zlen l = n -> ensure_list_for_nodes (PList l) n dflt = Ok l) /\
+  (forall l, zlen l <> n -> ensure_list_for_nodes (PList l) n dflt = Err ValueError).
+Proof. exact (ensure_list_for_nodes_doc n dflt). Qed.
+Theorem C20_ensure_dict_for_nodes nodes dflt : nodup_keys nodes ->
+  (forall d, ensure_dict_for_nodes (PDict d) nodes dflt = Ok d) /\
+  ensure_dict_for_nodes PNone nodes dflt = Ok (map (fun n => (n, dflt)) nodes) /\
+  (forall x, is_singleton x -> ensure_dict_for_nodes x nodes dflt = Ok (map (fun n => (n, x)) nodes)) /\
+  (forall l, length l = length nodes -> ensure_dict_for_nodes (PList l) nodes dflt = Ok (combine nodes l)) /\
+  (forall l, length l <> length nodes -> ensure_dict_for_nodes (PList l) nodes dflt = Err ValueError).
+Proof. exact (ensure_dict_for_nodes_doc nodes dflt). Qed.
+
+(* (6) sorters.  sort_dict_by_keys: for mutually comparable keys the output lists the values (or keys) of a
+   permutation of the dict that is sorted by key with None first (ascending) / last (descending) *)
+Theorem C20_sort_dict_by_keys d asc rv : nodup_fst d -> homog d ->
+  let es := sorted_entries d asc in
+  sort_dict_by_keys d asc rv = Ok (map (fun kv => if rv then snd kv else pv_of_key (fst kv)) es) /\
+  Permutation es d /\
+  StronglySorted (fun x y => if asc then key_doc_le (fst x) (fst y) else key_doc_le (fst y) (fst x)) es.
+Proof. exact (sort_dict_by_keys_spec d asc rv). Qed.
+Theorem C20_sort_dict_by_keys_mixed d asc rv :
+  (exists kv, In kv d /\ key_is_num (fst kv) = true) -> (exists kv, In kv d /\ key_is_str (fst kv) = true) ->
+  sort_dict_by_keys d asc rv = Err TypeError.
+Proof. exact (sort_dict_by_keys_mixed d asc rv). Qed.
+(* sort_nested_dict_by_keys — full statement (NOT proved): the flattened entries come out strongly sorted by the
+   documented lexicographic order (None first at both levels). *)
+Definition nested_doc_le (x y : (pkey * pkey) * pv) : Prop :=
+  if key_eqb (fst (fst x)) (fst (fst y)) then key_doc_le (snd (fst x)) (snd (fst y))
+  else key_doc_le (fst (fst x)) (fst (fst y)).
+Definition C20_sort_nested_dict_by_keys_statement : Prop :=
+  forall d (asc rv : bool) fl, flatten_nested d = Ok fl ->
+  (forall x y, In x fl -> In y fl -> pair_cmp_raises (fst x) (fst y) = false) ->
+  exists es, sort_nested_dict_by_keys d asc rv = Ok (map (fun kv => if rv then snd kv else PList [pv_of_key (fst (fst kv)); pv_of_key (snd (fst kv))]) es) /\
+             Permutation es fl /\ StronglySorted (fun x y => if asc then nested_doc_le x y else nested_doc_le y x) es.
+(* proved part: the output is a permutation of the flattened entries in which every ADJACENT pair is in order
+   w.r.t. the code's tuple comparison [pair_ltb] (missing: transitivity of the lexicographic order, i.e. Sorted -> StronglySorted,
+   and the identification of [pair_ltb] with [nested_doc_le]) *)
+Theorem C20_sort_nested_dict_by_keys_partial d (asc rv : bool) fl : flatten_nested d = Ok fl ->
+  (forall x y, In x fl -> In y fl -> pair_cmp_raises (fst x) (fst y) = false) ->
+  let s := isort (fun x y => pair_ltb (fst x) (fst y)) fl in
+  let es := if asc then s else rev s in
+  let dflt := ((KNone, KNone), PNone) in
+  sort_nested_dict_by_keys d asc rv = Ok (map (fun kv => if rv then snd kv else PList [pv_of_key (fst (fst kv)); pv_of_key (snd (fst kv))]) es) /\
+  Permutation es fl /\
+  forall i, (S i < length es)%nat ->
+    if asc then pair_ltb (fst (nth (S i) es dflt)) (fst (nth i es dflt)) = false
+    else pair_ltb (fst (nth i es dflt)) (fst (nth (S i) es dflt)) = false.
+Proof. exact (sort_nested_partial d asc rv fl). Qed.
+
+(* (7) key rewriters / predicates / rounding / list comparison *)
+Theorem C20_change_dict_key (d : dict pv) old_key new_key : nodup_fst d ->
+  (dget d old_key = None -> change_dict_key d old_key new_key = Err KeyError) /\
+  (forall v, dget d old_key = Some v -> fresh (dremove d old_key) new_key ->
+     change_dict_key d old_key new_key = Ok (dremove d old_key ++ [(new_key, v)])).
+Proof. exact (change_dict_key_doc d old_key new_key). Qed.
+Theorem C20_is_integer x : is_integer x = true <-> (exists z, x = PInt z) \/ (exists q z, x = PNum q /\ q == inject_Z z).
+Proof. exact (is_integer_doc x). Qed.
+Theorem C20_is_iterable x : is_iterable x = true <-> (exists l, x = PList l) \/ (exists d, x = PDict d).
+Proof. exact (is_iterable_doc x). Qed.
+Theorem C20_round_value rt q : exists z, round_value rt (PNum q) = Ok (match rt with ROther => PNum q | _ => PInt z end) /\
+  match rt with
+  | RUp => inject_Z z - 1 < q <= inject_Z z
+  | RDown => inject_Z z <= q < inject_Z z + 1
+  | RNearest => qabs (q - inject_Z z) <= 1 # 2 /\ (qabs (q - inject_Z z) == 1 # 2 -> Z.even z = true)
+  | ROther => True
+  end.
+Proof. exact (round_value_doc rt q). Qed.
+Theorem C20_round_dict_values d rt d' : round_dict_values d rt = Ok d' ->
+  map fst d' = map fst d /\ Forall2 (fun kv kv' => round_value rt (snd kv) = Ok (snd kv')) d d'.
+Proof. exact (round_dict_values_doc d rt d'). Qed.
+Theorem C20_round_dict_values_no_rounding d : round_dict_values d ROther = Ok d.
+Proof. exact (round_dict_values_none d). Qed.
+Theorem C20_compare_unhashable_lists (A : Type) (eqb : A -> A -> bool) : (forall a b, eqb a b = true <-> a = b) ->
+  forall l1 l2, compare_unhashable_lists eqb l1 l2 = true <-> Permutation l1 l2.
+Proof. exact (@compare_unhashable_lists_doc A eqb). Qed.
+
+(* ------------------------------------------------------------------------------------------------ *)
+(* non-vacuity: the docstring examples *)
+Example C20_nonvacuous_conv :
+  map qobs (conv_all [[6#10; 3#10; 1#10]; [5#10; 4#10; 1#10]; [3#10; 7#10]; [1]]) =
+  map qobs [90#1000; 327#1000; 342#1000; 182#1000; 52#1000; 7#1000].
+Proof. vm_compute. reflexivity. Qed.
+Example C20_nonvacuous_search :
+  sorted_q [1; 3; 3; 7] /\ fn_sorted [1; 3; 3; 7] 2 = 1%nat /\ fn_unsorted [1; 3; 3; 7] 2 = Ok 0%nat /\ fn_sorted [1; 3; 3; 7] 5 = 3%nat.
+Proof.
+  split.
+  - intros i j Hij. cbn [length] in Hij.
+    destruct i as [|[|[|[|i]]]]; destruct j as [|[|[|[|j]]]]; try lia; cbn [nth]; lra.
+  - vm_compute. repeat split; reflexivity.
+Qed.
+Example C20_nonvacuous_dict_match :
+  dict_match key_eqb [(KInt 1, 5); (KStr "a"%string, 0)] [(KNum 1, 5)] false (1 # 1000000000) 0 = Ok true /\
+  dict_match key_eqb [(KNum 1, 5)] [(KInt 1, 5); (KStr "a"%string, 0)] true (1 # 1000000000) 0 = Ok false.
+Proof. vm_compute. split; reflexivity. Qed.
+Example C20_nonvacuous_sort :
+  sort_dict_by_keys [(KStr "a"%string, PInt 5); (KNone, PInt 14); (KStr "b"%string, PInt 7)] true true = Ok [PInt 14; PInt 5; PInt 7] /\
+  sort_dict_by_keys [(KStr "a"%string, PInt 5); (KNone, PInt 14); (KStr "b"%string, PInt 7)] false false = Ok [PStr "b"%string; PStr "a"%string; PNone].
+Proof. vm_compute. split; reflexivity. Qed.
+Example C20_nonvacuous_du : map (fun kv => (fst kv, qobs (snd kv))) (du_sum_pmf 2 1 3) =
+  [(2, (1, 9)); (3, (2, 9)); (4, (1, 3)); (5, (2, 9)); (6, (1, 9))]%Z.
+Proof. vm_compute. reflexivity. Qed.
+
+(* Irwin-Hall closed form — TESTS by computation over Q (not theorems): the alternating sum is 0 at x <= 0, 1 at x >= n,
+   and equals the n = 1, 2, 3 piecewise polynomials at sample points *)
+Example C20_test_irwin_hall_outside_support :
+  forallb (fun n => forallb (fun x => qeqb (ih_formula x n) 0) [0; -(1#2); -3]
+                    && forallb (fun x => qeqb (ih_formula x n) 1) [qnat n; qnat n + (1#3); qnat n + 7; 100]) [1; 2; 3; 4; 5; 6]%nat = true.
+Proof. vm_compute. reflexivity. Qed.
+Example C20_test_irwin_hall_small_n :
+  forallb (fun x => qeqb (ih_formula x 1) x) [1#7; 1#2; 9#10] &&
+  forallb (fun x => qeqb (ih_formula x 2) (x * x / 2)) [1#7; 1#2; 1] &&
+  forallb (fun x => qeqb (ih_formula x 2) (1 - (2 - x) * (2 - x) / 2)) [1; 3#2; 19#10] &&
+  forallb (fun x => qeqb (ih_formula x 3) (x * x * x / 6)) [1#3; 1] &&
+  forallb (fun x => qeqb (ih_formula x 3) ((-2 * x * x * x + 9 * x * x - 9 * x + 3) / 6)) [1; 3#2; 2] &&
+  forallb (fun x => qeqb (irwin_hall_cdf x 3) (1 - (3 - x) * (3 - x) * (3 - x) / 6)) [2; 5#2; 3] = true.
+Proof. vm_compute. reflexivity. Qed.
+
+Print Assumptions C20_conv_coefficient.
+Print Assumptions C20_conv_length.
+Print Assumptions C20_conv_nonneg.
+Print Assumptions C20_conv_mass.
+Print Assumptions C20_conv_comm.
+Print Assumptions C20_conv_assoc.
+Print Assumptions C20_convolve_many_fold.
+Print Assumptions C20_convolve_many_pmfs.
+Print Assumptions C20_du_sum_pmf.
+Print Assumptions C20_find_nearest_sorted.
+Print Assumptions C20_find_nearest_sorted_exact_hit.
+Print Assumptions C20_find_nearest_unsorted.
+Print Assumptions C20_find_nearest.
+Print Assumptions C20_isclose_tolerance.
+Print Assumptions C20_dict_match_sym.
+Print Assumptions C20_dict_match_semantics.
+Print Assumptions C20_dict_match_negative_tol.
+Print Assumptions C20_dict_match_sym_python_keys.
+Print Assumptions C20_min_of_dict.
+Print Assumptions C20_ensure_list_for_time_periods.
+Print Assumptions C20_ensure_list_for_nodes.
+Print Assumptions C20_ensure_dict_for_nodes.
+Print Assumptions C20_sort_dict_by_keys.
+Print Assumptions C20_sort_dict_by_keys_mixed.
+Print Assumptions C20_sort_nested_dict_by_keys_partial.
+Print Assumptions C20_change_dict_key.
+Print Assumptions C20_is_integer.
+Print Assumptions C20_is_iterable.
+Print Assumptions C20_round_value.
+Print Assumptions C20_round_dict_values.
+Print Assumptions C20_round_dict_values_no_rounding.
+Print Assumptions C20_compare_unhashable_lists.
